@@ -21,7 +21,7 @@ from ..common import Run, Emb, repo_import, seed
 from ..tlc import run_tlc, write_cfg, MachineryError
 from . import utility as util_mod
 
-GRID = dict(Areas={10, 45, 120}, Units={1, 2, 5}, FixedCosts={0, 1000}, VarCosts={0, 100, 450}, RateDen={2, 4, 10}, Years={1, 2, 3, 4})
+GRID = dict(Areas={10, 45, 120}, Units={1, 2, 5}, FixedCosts={0, 1000}, VarCosts={0, 100, 450}, RateNum={1, 2, 3, 5}, RateDen={2, 4, 10}, Years={1, 2, 3, 4})
 K = 100
 
 
@@ -84,6 +84,9 @@ def one_case(args):
     emb = EMB
     z = util_mod.build_zone(case, emb)
     z.config.DO_AREA_TARGETING = True
+    # cost parameters: any positive rate (also above 100 %/y) and life; fixed by the case index
+    z.config.DISCOUNT_RATE, z.config.SERV_LIFE = [(0.07, 20), (1.5, 4), (0.35, 7), (1.0, 5), (2.5, 3), (7.0, 2)][idx % 6]
+    z.config.COST_EXP = [1.0, 0.6][(idx // 6) % 2]
     # per-stream film coefficients: alternate 1 and 2 so that the resistance mapping matters
     hs = {}
     for coll in (z.hot_streams, z.cold_streams):
